@@ -56,7 +56,10 @@ def select(prop, t, sd):
     # symbol twins (`token A='a'` referenced as 'a'): a third of the curated / coverage / recovery grammars per seed in quick, all in thorough
     base = cur + cov + rec + pf
     sym = [gram.symbolize(g) for i, g in enumerate(base) if t == 'thorough' or (i + sd) % 3 == 0]
-    gs = cur + cov + nm + rec + pf + px + zp + sym + rnd
+    pairs = corpus.pair_family(all_pairs=(t == 'thorough'), seed=sd)
+    gs = cur + cov + nm + rec + pf + px + zp + pairs + sym + rnd
+    for g in gs:      # sentences up to two tokens longer than the bound (sentence-directed pass, see props.grammar_job)
+        if 'deep_sentences' not in g.meta: g.meta['deep_sentences'] = 2
     if prop in ('C04', 'C05'):
         gs = [g for g in gs if not (g.features() & {'pred', 'assert'})]
     if prop == 'C08':
@@ -145,7 +148,7 @@ def finish(prop, results, N, t, sd, t0, extra_cov=None, extra_viol=(), extra_inc
                     'earlier check of the same session on byte-identical MIR (content-addressed cache, see explored_paths / reused_paths)',
         transitions_executed_by_this_process=stats['steps'],
         bounds=dict(max_tokens=N, grammars=len(results), accepted=len(accepted), tier=t),
-        grammars=[dict(name=r['name'], family=r['family'], max_tokens=r.get('max_tokens'), accepted=r['accepted'], reason=r['reason'], paths=r['paths'], wall_s=round(r['wall'], 2)) for r in results],
+        grammars=[dict(name=r['name'], family=r['family'], max_tokens=r.get('max_tokens'), deep_sentence_paths=r.get('deep_sentence_paths', 0), accepted=r['accepted'], reason=r['reason'], paths=r['paths'], wall_s=round(r['wall'], 2)) for r in results],
         paths=paths, explored_paths=stats['explored_paths'], reused_paths=stats['reused_paths'],
         solver_queries=stats['queries'] + sum(r['prop_queries'] for r in results),
         solver_time_s=round(stats['solver_time'] + sum(r['prop_time'] for r in results), 3),
